@@ -303,6 +303,14 @@ func (w *world) event(ev hx.Group) map[int][][]byte {
 		if _, err := m.Decode(b[:len(b):len(b)]); err == nil {
 			w.svr.Publish(m)
 		}
+	case 8:
+		m := message.NewPublishMessage()
+		b := gbytes(ev, 4)
+		m.SetQoS(byte(ev[1]))
+		m.SetTopic(b[:ev[3]])
+		m.SetPayload(b[ev[3]:])
+		m.SetRetain(ev[2] != 0)
+		w.svr.Publish(m)
 	case 7:
 		// (a connection is registered with the server only after handleConnection has started its
 		// goroutines: let the accepts in progress finish, so that Close sees every connection)
